@@ -26,13 +26,15 @@ using PModel = P::Model<M::Model>;
 
 static uint64_t g_seed = 0;
 static const long NSOLV = 7;        // blind, fib+qmdp, pbvi, perseus, sarsop, gapmin, kernels(bestConservative/bestPromising)
-static const long NFIXED = 10;      // hand-written witness / regression POMDPs come first
+static const long NFIXED = 12;      // hand-written witness / regression POMDPs come first (10, 11: GapMin regression instances)
 
 struct Inst {
     PomdpTables t;
     AIToolbox::Vector b0;
     std::string shape;
+    unsigned gapDigits = 0;     // 0 = drawn per case
 };
+static Inst genInst(uint64_t seed, long pn, bool th);
 
 static PomdpTables tablesOf(const PModel & m) {
     PomdpTables t; t.S = m.getS(); t.A = m.getA(); t.O = m.getO(); t.discount = m.getDiscount();
@@ -64,6 +66,10 @@ static Inst fixedInst(long k) {
     case 2: { I.t = oneState({-1.0}, 1.0 - std::ldexp(1.0, -14)); I.b0 = vec({1.0}); I.shape = "clamp_negative_reward"; break; }
     case 3: { I.t = oneState({1.0}, 1.0 - std::ldexp(1.0, -14)); I.b0 = vec({1.0}); I.shape = "clamp_positive_reward"; break; }
     case 4: { I.t = oneState({-2.0, -1.0, -3.0}, 0.5); I.b0 = vec({1.0}); I.shape = "one_state_negative"; break; }
+    // S=5 instances with a face initial belief on which GapMin needs several rounds and builds belief-POMDPs from points with different
+    // supports: with LPInterpolation's weights misplaced (C12 defect 1, repaired in cc0ddd0) it returns ub below V* / below lb here
+    case 10: { I = genInst(1, 183, true); I.shape = "fixed_gapmin_face"; I.gapDigits = 3; break; }
+    case 11: { I = genInst(1, 90, true); I.shape = "fixed_gapmin_face"; I.gapDigits = 4; break; }
     default: {
         // small hand-made 2-state POMDPs with corner / face initial beliefs and negative rewards
         Rng r(0xC03C03ull + (uint64_t)k);
@@ -79,8 +85,11 @@ static Inst fixedInst(long k) {
 
 static Inst makeInst(long pn, const std::string & tier) {
     if (pn < NFIXED) return fixedInst(pn);
-    Rng rng(g_seed * 0x9E3779B97F4A7C15ull + (uint64_t)pn * 0xA24BAED4963EE407ull + 0xC03ull);
-    const bool th = tier == "thorough";
+    return genInst(g_seed, pn, tier == "thorough");
+}
+
+static Inst genInst(uint64_t seed, long pn, bool th) {
+    Rng rng(seed * 0x9E3779B97F4A7C15ull + (uint64_t)pn * 0xA24BAED4963EE407ull + 0xC03ull);
     Inst I;
     size_t S = (size_t)rng.range(2, th ? 5 : 4), A = (size_t)rng.range(1, 3), O = (size_t)rng.range(1, 3);
     if (rng.coin(1, 12)) S = 1;
@@ -205,12 +214,15 @@ static void runSarsop(Rng & rng, const Inst & I, const PModel & m, const std::st
 static void runGapMin(Rng & rng, const Inst & I, const PModel & m, const std::string & tier) {
     static const double tols[] = {0.1, 0.01, 0.005};
     double tol = tols[rng.below(3)];
-    // precisionDigits drives the tolerance of the inner PBVI/FIB runs (threshold*(1-discount)/2): 2 digits at discount 15/16 already costs
-    // minutes per iteration under the sanitizers, so quick uses 1 digit and thorough at most 2
-    unsigned digits = (unsigned)rng.range(1, tier == "thorough" ? 2 : 1);
-    // the hand-made instances (corner / face initial beliefs, moderate discounts) are cheap enough for 2-3 digits: several rounds of
-    // point selection + belief-POMDP construction (LPInterpolation weights of points with different supports)
-    if (I.shape.rfind("fixed_", 0) == 0 && I.t.discount <= 0.875) { digits = I.t.discount <= 0.75 ? 3 : 2; tol = 0.01; }
+    // precisionDigits drives both how long GapMin keeps refining (it stops once the gap is below 10^(magnitude - digits)) and the
+    // tolerance of its inner PBVI/FIB runs (threshold*(1-discount)/2). With 1-2 digits it returns after the first test; with 3-4 digits
+    // at discount 15/16 one iteration costs minutes under the sanitizers. So: digits by discount.
+    const double g = I.t.discount;
+    unsigned maxDigits = g <= 0.5 ? 4 : g <= 0.75 ? 3 : g <= 0.875 ? 2 : 1;
+    if (tier == "thorough" && maxDigits < 4 && g <= 0.9375) ++maxDigits;
+    unsigned digits = (unsigned)rng.range(maxDigits > 1 ? maxDigits - 1 : 1, maxDigits);
+    if (I.gapDigits) digits = I.gapDigits;
+    if (g <= 0.875) tol = 0.01;
     Obs ob{&I, "GapMin", tier == "thorough" ? 30u : 12u};
     AIToolbox::Verif::anytimeObserver = std::ref(ob);
     std::printf("#in GapMin tol=%g digits=%u shape=%s\n", tol, digits, I.shape.c_str()); std::fflush(stdout);
@@ -250,7 +262,7 @@ static void runKernels(Rng & rng, const Inst & I, const PModel & m) {
 }
 
 namespace verif {
-long verif_ncases(const std::string & tier) { return (NFIXED + (tier == "thorough" ? 300 : 40)) * NSOLV; }
+long verif_ncases(const std::string & tier) { return (tier == "thorough" ? 310 : 50) * NSOLV; }
 
 void verif_case(Rng & rng, long idx, const std::string & tier) {
     const long pn = idx / NSOLV, solver = idx % NSOLV;
